@@ -64,6 +64,7 @@ def zoo_case(draw, entry=None, small=False):
         c["vals"] = [draw(fl(0.05, 0.95)) for _ in range(12)]
     ss = draw(st.sampled_from([[3], [4], [2], [5], [1], [3, 2], [2, 4], [4, 4], [1, 3]]))
     c["ss"] = ss
+    c["eval_mode"] = draw(st.sampled_from(["fresh", "fresh", "rescaled", "second"])) if e == "like" else "fresh"
     c["subset_bits"] = draw(st.integers(1, 2 ** 12 - 1))
     nS = int(np.prod(ss))
     c["u"] = [[draw(fl(0.001, 0.999)) for _ in range(6)] for _ in range(nS)]
@@ -195,6 +196,19 @@ def run_subset(c, spec, dom, targets, batched):
         bvals[lid] = stacked.reshape(ss + stacked.shape[1:]).tolist()
     out = {}
     bdic, exc0 = guarded(load, with_leaf_values(spec, bvals))
+    mode = c.get("eval_mode", "fresh")
+    if exc0 is None and "like" in targets and mode != "fresh":
+        # the likelihood has state: rescaling once switched on stays on.  'rescaled' forces it on a fresh batched
+        # model; 'second' evaluates, re-assigns one batched parameter (same values) and evaluates again
+        if mode == "rescaled":
+            bdic["like"].rescale = True
+        else:
+            _, exc0 = guarded(bdic["like"])
+            if exc0 is None:
+                bdic["like"].rescale = True
+                pid = batched[0]
+                if pid in bdic:
+                    bdic[pid].tensor = bdic[pid].tensor.clone()
     refs = [evaluate(spec, per[s], targets) for s in range(nS)]
     for t in targets:
         exc = exc0
@@ -247,7 +261,7 @@ def body(c):
     proper = len(batched) < len(leaves)
     res = Res(nontrivial=proper or len(ss) == 2 or ss[0] in (4, 5, 2), key=(cls, batched, ss), tags={"entry": c["entry"], "cls": cls.split(":")[0]})
     out = run_subset(c, spec, dom, targets, batched)
-    labels = [c["entry"], "ss%d" % len(ss), "proper_subset" if proper else "all_batched"]
+    labels = [c["entry"], "ss%d" % len(ss), "proper_subset" if proper else "all_batched", "mode_" + c.get("eval_mode", "fresh")]
     for t, (status, detail) in out.items():
         labels.append("%s:%s" % (c["entry"], status))
         if status in ("wrong", "shape"):
@@ -267,7 +281,7 @@ def body(c):
                         break
             detail.update(target=t, batched=minimal, classes=cls, sample_shape=ss)
             tcls = t if c["entry"] == "dist" else t
-            res.fail("wrong_number" if status == "wrong" else "wrong_shape", detail, target=t, batched=sorted(minimal), bucket="%s[%s]" % (tcls, "+".join(sorted(minimal))),
+            res.fail("wrong_number" if status == "wrong" else "wrong_shape", detail, target=t, batched=sorted(minimal), bucket="%s[%s]%s" % (tcls, "+".join(sorted(minimal)), "" if c.get("eval_mode", "fresh") == "fresh" else ":" + c["eval_mode"]), eval_mode=c.get("eval_mode", "fresh"),
                      unbatched=sorted(set(leaves) - set(minimal)), ss_len=len(ss), model=cls, scalar_result=detail.get("result_shape") == [])
     res.labels = tuple(labels)
     return res
